@@ -128,7 +128,8 @@ TrResidue ==
   /\ Cur.dsync = 0 /\ Cur.active_peers = 0 /\ Cur.fd = 0 /\ Cur.waiting_fd = 0 /\ Cur.waiting_peer = 0
   /\ UNCHANGED <<ainfo, caps, waiting, call, returned, cancelAt, dialedGen, run, failed, conns, closedAt>>
 
-TraceNext == \/ TrReset \/ TrAddr \/ TrConfig \/ TrDialCall \/ TrCancel \/ TrTStart \/ TrTEnd \/ TrConnClose
+TrHook == IsEvent("hook") /\ UNCHANGED <<ainfo, caps, waiting, call, returned, cancelAt, dialedGen, run, failed, conns, closedAt>>
+TraceNext == \/ TrHook \/ TrReset \/ TrAddr \/ TrConfig \/ TrDialCall \/ TrCancel \/ TrTStart \/ TrTEnd \/ TrConnClose
              \/ TrRetConn \/ TrRetCtx \/ TrRetErr \/ TrResidue
 TraceSpec == TraceInit /\ [][TraceNext]_vars
 
